@@ -263,6 +263,20 @@ def _structural_part(chk, m):
     rec_names = {t.id for t in ast.walk(outer.target) if isinstance(t, ast.Name)} if outer is not None else set()
     rep_calls = [c for c in ast.walk(outer) if isinstance(c, ast.Call) and isinstance(c.func, ast.Attribute)
                  and c.func.attr == "represent_as_bytes"] if outer is not None else []
+    if outer is None:
+        # the segment loop sits in a helper that is handed one record at a time: the record loop is in its caller
+        for cs in chk.cg.callers_of(f):
+            g = cs.caller
+            for n in walk_local(g.node):
+                if isinstance(n, ast.For) and any(x is cs.node for x in ast.walk(n)):
+                    loop_vars = {t.id for t in ast.walk(n.target) if isinstance(t, ast.Name)}
+                    passed = [i for i, a in enumerate(cs.node.args) if isinstance(a, ast.Name) and a.id in loop_vars]
+                    if passed:
+                        outer = n
+                        params = f.param_names[1:] if f.cls is not None and f.kind != "staticmethod" else f.param_names
+                        rec_names = {params[i] for i in passed if i < len(params)}
+                        rep_calls = [c for c in walk_local(f.node) if isinstance(c, ast.Call)
+                                     and isinstance(c.func, ast.Attribute) and c.func.attr == "represent_as_bytes"]
     ok = outer is not None and bool(rep_calls) and all(isinstance(c.func.value, ast.Name) and c.func.value.id in rec_names
                                                        for c in rep_calls)
     chk.require(ok, "R02.4", "segments-nested-in-record-loop",
